@@ -1,8 +1,11 @@
 #!/bin/sh
-# usage: tools_try_seed.sh <patch> <prop> : applies a seeded change to /repo, runs the quick check, reverts.
+# usage: tools_try_seed.sh <patch> <prop> [govc flags]: applies a change to a scratch worktree of /repo (with the current
+# contract mirror), runs the quick check of <prop> against it, removes the worktree. /repo itself is not touched.
 set -u
-git -C /repo apply "$1" || exit 9
-/verif/bin/govc check "$2" -no-evidence ${3:-} 2>&1 | tail -${TAILN:-6}
-echo "exit=$?"
-git -C /repo checkout -- . 
-git -C /repo status --short | head
+WT=/tmp/verif_trywt.$$
+git -C /repo worktree add -q --detach $WT HEAD || exit 9
+(cd /verif/contracts && find . -name zz_verif_contracts.go | while read f; do mkdir -p "$WT/$(dirname "$f")"; cp "$f" "$WT/$f"; done)
+git -C $WT apply "$1" || { echo "patch does not apply"; git -C /repo worktree remove --force $WT; exit 9; }
+P=$2; shift 2
+GOVC_OUT=/tmp/verif_tryout.$$ GOVC_REPO=$WT /verif/bin/govc check "$P" -repo $WT -no-evidence "$@" 2>&1 | grep -v "^  ok\|^  func\|^note:" | cut -c1-${CUT:-330} | tail -${TAILN:-8}
+git -C /repo worktree remove --force $WT; rm -rf /tmp/verif_tryout.$$ $WT
